@@ -312,7 +312,8 @@ def gen_fr_throw_program(rng):
     mode = rng.choice(["throw-always", "throw-once", "throw-first-call", "unregister-then-throw"])
     lines = [PRELUDE,
              "var keep = []; var calls = 0; var thrown = {};",
-             "var fr = new FinalizationRegistry(function (h) { calls++; print(\"F:\" + h);"]
+             "var wave2 = [{w: 1}, {w: 2}, {w: 3}];",
+             "var fr = new FinalizationRegistry(function (h) { calls++; print(\"F:\" + h); wave2 = null;"]
     if mode == "throw-always":
         lines.append("  if (h === \"D_h%d\") throw new Error(\"FRCB always \" + h);" % thrower)
     elif mode == "throw-once":
@@ -326,6 +327,9 @@ def gen_fr_throw_program(rng):
     lines.append("(function () { for (var i = 0; i < %d; i++) { var s = {s: i}, d = {d: i}; keep.push(s); fr.register(s, \"S_h\" + i); fr.register(d, \"D_h\" + i, i %% 2 ? tok : undefined); } })();" % n)
     # two waves of garbage so that a second clean-up pass has something to report
     lines.append("(function () { var late = {late: 1}; fr.register(late, \"D_late\"); })();")
+    # a second wave of registered targets that stays alive until the first clean-up callback has run (it drops them):
+    # the next collection then reclaims them, which starts a SECOND clean-up pass over the registry
+    lines.append("wave2.forEach(function (o, i) { fr.register(o, \"D_w\" + i); });")
     lines.append("gc(); var junk = []; for (var j = 0; j < %d; j++) junk.push({j: j}); junk = null; gc();" % rng.randrange(5, 80))
     lines.append("print(\"frthrow\", keep.length);")
     lines.append("print(\"end\");")
